@@ -250,6 +250,7 @@ def is_sym(x, name=None):
 class Rules:
     def __init__(self, ell, lits):
         self.ell, self.lits = ell, lits
+        self.zero_tail = False
 
     def is_ell(self, x):
         # a literal named like the ellipsis is a literal
@@ -328,6 +329,8 @@ class Rules:
                 env.update(m)
             if rep is not None:
                 nrep = len(fitems) - need
+                if nrep == 0 and after:
+                    self.zero_tail = True      # an ellipsis with a fixed tail matched zero items
                 ms = []
                 for y in fitems[len(before):len(before) + nrep]:
                     m = self.match(rep, y)
@@ -449,8 +452,12 @@ def parse_definition(d):
     return d[1].name, Rules(ell, lits), rules
 
 
-def expand_use(d, u, quoted_value=False):
-    """("ok", expansion) | ("nomatch",) | ("invalid-def", why) | ("invalid-template", why) | ("excluded",)"""
+def expand_use(d, u, quoted_value=False, info=None):
+    """("ok", expansion) | ("nomatch",) | ("invalid-def", why) | ("invalid-template", why) | ("excluded",)
+    [info], if given, receives: rules (Rules), bodies [(pattern body, template)], selected (index or None),
+    zero_tail (the selected rule matched zero items at an ellipsis followed by a fixed tail)"""
+    if info is None:
+        info = {}
     try:
         kw, R, rules = parse_definition(d)
         pats = []
@@ -458,8 +465,10 @@ def expand_use(d, u, quoted_value=False):
             if not isinstance(p, (list, Dot)) or (isinstance(p, list) and not p):
                 raise Invalid("a pattern is a list beginning with the keyword position")
             body = p[1:] if isinstance(p, list) else mk_dotted(p.items[1:], p.tail)
-            R.vars_of(body)
             pats.append((body, t))
+        info["rules"], info["bodies"] = R, pats
+        for body, t in pats:
+            R.vars_of(body)
     except Invalid as e:
         return ("invalid-def", str(e))
     if isinstance(u, list) and u:
@@ -468,10 +477,12 @@ def expand_use(d, u, quoted_value=False):
         ubody = mk_dotted(u.items[1:], u.tail)
     else:
         return ("nomatch",)
-    for body, t in pats:
+    for idx, (body, t) in enumerate(pats):
+        R.zero_tail = False
         env = R.match(body, ubody)
         if env is None:
             continue
+        info["selected"], info["zero_tail"] = idx, R.zero_tail
         try:
             e = R.inst(t, env)
         except Invalid as ex:
